@@ -628,6 +628,21 @@ func (e *FieldAccessExpr) execListAccess(idx int, left any) (any, error) {
 			have = true
 			fval = lval[idx]
 		}
+	case []string:
+		if idx < len(lval) {
+			have = true
+			fval = lval[idx]
+		}
+	case []int64:
+		if idx < len(lval) {
+			have = true
+			fval = lval[idx]
+		}
+	case []float64:
+		if idx < len(lval) {
+			have = true
+			fval = lval[idx]
+		}
 	case string:
 		if lval == "" {
 			have = false
